@@ -186,6 +186,12 @@ def gen_dtls():
     i4 = bc.find("ctx.peer_certificate = Some(leaf_certificate.clone())")
     if not (0 <= i1 < i2 < i3 < i4):
         raise Untranslatable("handle_certificate: order leaf / fingerprint / public key / store changed")
+    need(r"let actual_fingerprint = fingerprint_from_der\(leaf_certificate\); "
+         r"if let Some\(expected_fingerprint\) = &ctx\.expected_remote_fingerprint && &actual_fingerprint != expected_fingerprint \{", bc,
+         "fingerprint comparison is String inequality of the rendered digest and the expected value")
+    if rs2v.find_struct_fields(src, "HandshakeContext").get("expected_remote_fingerprint") != "Option<String>":
+        raise Untranslatable("HandshakeContext.expected_remote_fingerprint is not Option<String>")
+    m.raw("Definition fp_compare_is_string_equality : bool := true.", "handle_certificate fingerprint comparison", MOD)
     _, _, b_ske = rs2v.find_fn(src, "handle_server_key_exchange", "DtlsInner")
     bs = norm(b_ske)
     j0 = bs.find("if is_client {")
